@@ -17,3 +17,9 @@ reg("C11", weave=["events/broadcaster"],
     stub=["subscriber readers (prompt / slow / stalled) and cancellers are harness clients"],
     assumptions=["a live subscriber that does not read may hold up Broadcast (documented blocking send): progress is demanded only after every stalled subscriber resumed or was cancelled",
                  "under Close racing Broadcast, values still buffered at Close may be dropped (statement: 'while the broadcaster is open')"])
+reg("C09", weave=["events/ratelimiting"],
+    quick_runs=320000, thorough_runs=6000000,
+    real=["events/ratelimiting/coalescing.go (default RealClock over the bubble clock)"],
+    stub=["consumer of the event channel and Add clients are harness goroutines"],
+    assumptions=["settled mode compares against an executable model of the statement with the scheduler's delay injection off; ties between an Add and a window end may resolve either way",
+                 "racy mode: lateness bound MaxDelay + 6 ms injected-delay budget + 1 ms"])
